@@ -265,14 +265,16 @@ SPEC = {
     "id": "C20",
     "components": [
         {"comp": "timer_table", "module": "QV.Model.TimerTable", "quick": 1500, "thorough": 40000},
-        {"comp": "sim_c20", "module": "QV.Sys.MonC20", "quick": 280, "thorough": 2400},
+        {"comp": "sim_c20", "module": "QV.Sys.MonC20", "quick": 200, "thorough": 2400},
     ],
     "extra": [ambient_inventory],
     "assumptions": [
         "the twin-run comparison observes the real state machine on generated histories; it is sampling, not proof",
-        "variant 3 (extra calls) compares TX/RX/APP/EVENT/EPEVENT records up to the first instant the Pacing timer is armed: "
-        "an early poll_transmit legitimately releases pacing-limited data before the Pacing timer (lazy token refill; the "
-        "timer waits for a full burst) — the stated footprint; after that instant only the per-run rules apply",
+        "variant 3 (extra calls) compares TX/RX/APP/EVENT/EPEVENT records up to the first instant at which (a) the Pacing timer is "
+        "armed: an early poll_transmit legitimately releases pacing-limited data before the Pacing timer (lazy token refill; the "
+        "timer waits for a full burst) — the stated footprint of poll_transmit; or (b) a drive ends with an already-due deadline "
+        "(a timer armed in the past while a datagram was handled): a handle_timeout call there is not an extra call, it services the "
+        "timer before instead of after the pending transmit (different packetisation). After that instant only the per-run rules apply",
         "handler contract of TimerTable.handle_timeout (timeouts_settle): established by reading the nine handlers, not proved "
         "about the Rust code; the PTO handler may re-arm at an instant <= now only while the back-off still doubles "
         "(pto_count < MAX_BACKOFF_EXPONENT) — lateness bound made explicit in the theorem",
@@ -288,7 +290,7 @@ SPEC = {
 MANIFEST = {
     "text": ("Proved in Coq (unbounded, for all states, op sequences and shifts d): time-translation equivariance "
              "(step (shift d s) (shift d op) = shift d (step s op), lifted to op sequences) of the time-carrying component "
-             "models TimerTable, Mtud, PendingAcks, AckFrequency, CidState and BloomLog — every use of an instant is a comparison, a "
+             "models TimerTable, Mtud, PendingAcks, StatelessReset, CidState and BloomLog (AckFrequency holds durations only; Lifecycle / Recovery / PathSM were not in the tree) — every use of an instant is a comparison, a "
              "difference or instant + duration; the driver contract on the model of TimerTable + the handle_timeout dispatch loop: "
              "spurious_timeout_noop (no expired timer: state unchanged, no handler runs), timeouts_settle (handlers that re-arm only "
              "at instants > now: ONE call leaves next_timeout None or > now) and timeouts_settle_bounded (a handler may re-arm at an "
@@ -297,7 +299,8 @@ MANIFEST = {
              "PARTIAL: that the Rust state machine has no hidden ambient input is OBSERVED, not proved — twin runs of the real endpoints "
              "(identical replay and all instants shifted by 977_777_777 us must give record-for-record equal traces; added spurious "
              "handle_timeout/poll calls and early wake-ups must leave TX/RX/APP/EVENT/EPEVENT unchanged up to the first instant the "
-             "Pacing timer is armed; timeouts settle within 10 calls at one instant; drained connections are silent) plus a static "
+             "Pacing timer is armed or a timer is armed in the past; timeouts settle within 10 calls at one instant; right after a "
+             "handle_timeout call no timer but LossDetection/PushNewCid is due; drained connections are silent) plus a static "
              "inventory of Instant::now / SystemTime::now / thread RNG / SysRng sites compared with a justified allowlist. The handler "
              "contract is established by reading the nine handlers, not proved about the Rust code."),
     "note": ("Trusted: Coq kernel + vm_compute; hand-written models (definitions only) tied by sampling; hook interpreter timer.rs; "
